@@ -5,9 +5,10 @@ CONSTANTS
   PadKinds = {}
   Feeds = {"fd"}
   MaxLenC = 3
-  KindsC = {"P", "RD", "GO", "GC", "HD", "HE", "LC", "SE"}
+  KindsC = {"P", "RD", "GO", "GC", "HD", "HE", "LC", "SE", "BX"}
   ChunkSizes = {0, 1, 2, 3, 5}
 INVARIANT TypeOK
 INVARIANT OffAtExec
+INVARIANT StdinBlocking
 INVARIANT ChunkIndependent
 CHECK_DEADLOCK TRUE
